@@ -3,6 +3,7 @@ package main
 
 import (
 	"os"
+	"runtime/pprof"
 
 	"verif/seq/fw"
 	"verif/seq/props/c20"
@@ -13,7 +14,14 @@ func main() {
 	if len(os.Args) > 1 {
 		tier = os.Args[1]
 	}
+	if f := os.Getenv("C20_CPUPROFILE"); f != "" { // development aid
+		w, err := os.Create(f)
+		if err == nil {
+			pprof.StartCPUProfile(w)
+		}
+	}
 	c := fw.New("C20", tier, "model_checking")
 	c20.Run(c)
+	pprof.StopCPUProfile()
 	os.Exit(c.Finish())
 }
